@@ -479,6 +479,12 @@ def main():
     chk.cov['evaluations'] = paths
     chk.cov['distinct_nontrivial'] = checked
     chk.cov['exhaustive'] = True
+    from . import extras7
+    for fn_ in ('export_falsy_model',):
+        for pr in getattr(extras7, fn_)()[:2]:
+            chk.violation(pr, {'extras7': fn_})
+        chk.cov['traces_validated_against_impl'] += 1
+    chk.cov.setdefault('bounds', {})['concrete_supplements_round7'] = ['export_falsy_model']
     return chk.finish('one path per (slot, string over the alphabet); each is one real model load + export; distinct = '
                       'exports actually validated')
 
@@ -567,6 +573,10 @@ def file_overwrite_scenario():
 
 
 def replay(data):
+    if isinstance(data, dict) and data.get('extras7'):
+        from . import extras7
+        pr = getattr(extras7, data['extras7'])()
+        return bool(pr), pr[:2]
     if data.get('file_overwrite'):
         pr = file_overwrite_scenario()
         return bool(pr), pr[:2]
